@@ -207,10 +207,12 @@ _DISPATCH_RULE = ("TLC enumerates fault assignments (every endpoint x fault kind
                   "sequences, model placement and boot health; each runs through the fully assembled server with "
                   "socket-level scripted backends and a raw client; the trace is validated against Dispatch. "
                   "Non-trivial = at least one endpoint misbehaves or is not healthy at boot.")
+# a 200 answer without a Content-Type, cut after it had started
+_G_NOCT = dict(dgen(GKinds='{"ok", "cut_noct", "refuse"}', Balancers='{"round-robin"}', Framings='{"cl", "chunked"}', Routes='{"proxy", "provider"}'), always=True)
 PROPS["C02"] = {
     "rule": _DISPATCH_RULE, "exhaustive": True,
     "assumptions": ["backends stamp every body token with (endpoint, attempt); attribution of delivered bytes is by token"],
-    "parts": [dpart([_G_SINGLE2, _G_BURST], [_G_SINGLE3, _G_BURST, _G_BURST3, _G_TWOSTEP], 6000)],
+    "parts": [dpart([_G_SINGLE2, _G_BURST, _G_NOCT], [_G_SINGLE3, _G_BURST, _G_BURST3, _G_TWOSTEP, _G_NOCT], 6000)],
 }
 
 PROPS["C04"] = {
